@@ -477,16 +477,27 @@ def check_offset(prog: Program, res: Result) -> None:
     fn = fi.node
     n = 0
     for aug in walk_function(fn):
-        if not (isinstance(aug, ast.AugAssign) and isinstance(aug.op, ast.Add) and isinstance(aug.target, ast.Name) and astq.enclosing_loops(aug)):
+        if isinstance(aug, ast.Assign) and len(aug.targets) == 1 and isinstance(aug.targets[0], ast.Name) and isinstance(aug.value, ast.BinOp) and isinstance(aug.value.op, ast.Add) \
+                and aug.targets[0].id in (norm(aug.value.left), norm(aug.value.right)) and astq.enclosing_loops(aug):
+            # off = off + c  is  off += c
+            other = aug.value.right if norm(aug.value.left) == aug.targets[0].id else aug.value.left
+            aug = ast.copy_location(ast.AugAssign(target=aug.targets[0], op=ast.Add(), value=other), aug)
+            aug._parent = getattr(aug, "_parent", None) or None
+            orig = [x for x in walk_function(fn) if isinstance(x, ast.Assign) and x.lineno == aug.lineno and norm(x.targets[0]) == aug.target.id][0]
+            aug._parent = orig._parent
+            anchor = orig
+        else:
+            anchor = aug
+        if not (isinstance(aug, ast.AugAssign) and isinstance(aug.op, ast.Add) and isinstance(aug.target, ast.Name) and astq.enclosing_loops(anchor)):
             continue
         off = aug.target.id
-        lp = astq.enclosing_loops(aug)[-1]
+        lp = astq.enclosing_loops(anchor)[-1]
         used = [sl for sl in ast.walk(lp) if isinstance(sl, ast.Subscript) and isinstance(sl.slice, ast.Slice) and sl.slice.lower is not None and norm(sl.slice.lower) == off]
         if not used:
             continue
         n += 1
         lv = sorted(astq.target_names(lp.target))
-        step = astq.expand_at(fn, aug.value, aug, keep=lv)
+        step = astq.expand_at(fn, aug.value, anchor, keep=lv)
         ok = isinstance(step, ast.Subscript) and norm(step.slice) in lv
         src = (astq.expand_at(fn, step.value, lp) if isinstance(step.value, ast.Name) else step.value) if ok else None
         ok = ok and isinstance(src, ast.Call) and norm(src.func).split(".")[-1] == "bincount"
